@@ -1,4 +1,5 @@
 """C04: byte determinism of diagnostics and facts."""
+import os
 import random
 
 from . import common
@@ -81,9 +82,53 @@ def run(ctx):
         ctx.violation("nondeterminism", "C04 fails on the real tool: %s\nreplay: run `bin/harness analyze -dir <module>` repeatedly and compare the facts' sha and the diagnostics\n" % b)
     for e in errs[:2]:
         ctx.violation("run", "a run failed: %s" % e, found_input=False)
+    if (not okp and not ctx.violations) or ctx.tier == "thorough":
+        # search for a concrete input on which the result depends on the machine: twelve functions of about two seconds of
+        # backpropagation each (the K=4 member of the family of corpus/c07/treesize), analysed with all CPUs and with one
+        w = cpu_starved(ctx)
+        if w:
+            ctx.violation("cpu", "C04 fails on the real tool: the output depends on the number of CPUs available to the analysis\n%s\nreplay: generate the package with checks/c04.py slow_package(dir), run bin/nilaway -pretty-print=false ./... with GOMAXPROCS=1 and unset\n" % w)
     if not okp and not ctx.violations:
         ctx.violation("proof", "a proof obligation of props/C04.v no longer checks (e.g. an unclassified map range in the regenerated inventory):\n" + common.coq_error_excerpt(log), found_input=False)
     ctx.write_evidence()
+
+
+def slow_package(d):
+    """a package whose analysis takes a few seconds per function (bounded: the trees stay below config.MaxAssertionTreeSize)"""
+    K = 4
+    out = ["package slow", "", "func pick() int { return 0 }", "", "type N struct {"]
+    out += ["\tf%d *N" % i for i in range(K)]
+    out += ["}", ""]
+    for f in range(12):
+        out += ["func walk%d(n *N) *N {" % f, "\tfor pick() > %d {" % f, "\t\tswitch pick() {"]
+        for i in range(K):
+            out += ["\t\tcase %d:" % i, "\t\t\tn = n.f%d" % i]
+        out += ["\t\t}", "\t}", "\treturn n", "}", "", "func use%d() int { return walk%d(nil).f0.f1 != nil }" % (f, f) if False else "func use%d() *N { return walk%d(nil).f0 }" % (f, f), ""]
+    os.makedirs(d, exist_ok=True)
+    open(os.path.join(d, "go.mod"), "w").write("module ex.com/slow\n\ngo 1.23\n")
+    open(os.path.join(d, "a.go"), "w").write("\n".join(out) + "\n")
+
+
+def cpu_starved(ctx):
+    """-> description of a difference between the run with all CPUs and the run with one, or None"""
+    import shutil
+    d = ctx.scratch()
+    try:
+        slow_package(d)
+        outs = []
+        for procs in (None, "1"):
+            env = dict(common.GOENV)
+            env["NO_COLOR"] = "1"
+            if procs:
+                env["GOMAXPROCS"] = procs
+            cmd = "ulimit -v 12000000; exec timeout 600 %s -pretty-print=false ./..." % os.path.join(common.BIN, "nilaway")
+            rc, out, err = common.sh2(["bash", "-c", cmd], cwd=d, env=env, timeout=700)
+            outs.append((rc, "\n".join(sorted((err + "\n" + out).replace(d, "<D>").split("\n")))))
+        if outs[0] != outs[1]:
+            return "all CPUs (exit %s):\n%s\n\nGOMAXPROCS=1 (exit %s):\n%s" % (outs[0][0], outs[0][1][:1500], outs[1][0], outs[1][1][:1500])
+        return None
+    finally:
+        shutil.rmtree(d, ignore_errors=True)
 
 
 def replay(ctx, path):
